@@ -1,5 +1,7 @@
 import SamlModel.Generated.Funcs
 import SamlModel.Model.Consts
+import SamlModel.Props.C11
+import SamlModel.Lemmas.Builders
 set_option linter.unusedSimpArgs false
 set_option linter.unusedVariables false
 /-!
@@ -237,5 +239,78 @@ theorem C11_generated_signed_iff_configured (md : Option md_EntityDescriptorType
                 | some m =>
                   simp at hw
                   exact ⟨m, cert, key, signer, sig, rfl, rfl, hsg, hcr, hw.1.symm⟩
+
+
+/-! ### The descriptors (`IdentityProviderConfig.getMetadata`, `IdentityProvider.GetMetadata`, `GetEntityID`; translated standalone) -/
+
+open Builders
+
+theorem absolute_ok (o : Ora) (e : provider_Endpoint) (issuer : String) :
+    Endpoint_Absolute o e issuer = .ok (Metadata.abs o e issuer) := by
+  unfold Metadata.abs Endpoint_Absolute Endpoint_Absolute.body
+  by_cases h : e.url = "" <;> simp [h, C11.absolute_eq, Res.isPanic, Res.get, Ctl.toRes]
+
+/-- the endpoints in effect for a configuration -/
+def epsOf (o : Ora) (c : provider_IdentityProviderConfig) : provider_Endpoints :=
+  ((endpointConfigToEndpoints o c.Endpoints).get).getD default
+
+/-- **the IdP descriptors, as regenerated from metadata.go**: never a panic for a configuration with its metadata
+    options, and what the two descriptors advertise -/
+theorem getMetadata_spec (o : Ora) (c : provider_IdentityProviderConfig) (mc : provider_MetadataIDPConfig)
+    (hmc : c.MetadataIDPConfig = some mc) (entityID issuer : String) (cert : Lib.Bytes) (tf : String) :
+    ∃ md aa, IdentityProviderConfig_getMetadata o (some c) entityID issuer cert tf = .ok (some md, some aa) ∧
+      md.WantAuthnRequestsSigned = c.WantAuthRequestsSigned ∧
+      md.SingleSignOnService = [{ Binding := redirectBinding, Location := Metadata.abs o (epsOf o c).singleSignOnEndpoint issuer },
+                                { Binding := postBinding, Location := Metadata.abs o (epsOf o c).singleSignOnEndpoint issuer }] ∧
+      md.SingleLogoutService = [{ Binding := redirectBinding, Location := Metadata.abs o (epsOf o c).singleLogoutEndpoint issuer },
+                                { Binding := postBinding, Location := Metadata.abs o (epsOf o c).singleLogoutEndpoint issuer }] ∧
+      aa.AttributeService = [{ Binding := "urn:oasis:names:tc:SAML:2.0:bindings:SOAP", Location := Metadata.abs o (epsOf o c).attributeEndpoint issuer }] ∧
+      (∀ kd ∈ md.KeyDescriptor, ∀ x ∈ kd.KeyInfo.X509Data, x.X509Certificate = Lib.b64encode cert) ∧
+      aa.KeyDescriptor = md.KeyDescriptor := by
+  unfold IdentityProviderConfig_getMetadata IdentityProviderConfig_getMetadata.body
+  have he := endpointConfigToEndpoints_eq o c.Endpoints
+  have hsaml := C03.getSAML_eq o { (default : provider_Attributes) with email := "empty", fullName := "empty", givenName := "empty", surname := "empty", userID := "empty", username := "empty", customAttributes := [] }
+  by_cases henc : c.EncryptionAlgorithm = "" <;> by_cases hv : mc.ValidUntil = 0 <;> by_cases hc : mc.CacheDuration = "" <;>
+    simp only [he, hsaml, hmc, henc, hv, hc, deref, Res.isPanic, Res.get, Ctl.toRes, absolute_ok, epsOf, redirectBinding, postBinding,
+      Option.isNone_some, Option.getD_some, Bool.false_eq_true, Bool.or_self, Bool.or_false, if_false, if_true, Ctl.seq_next, ne_eq, not_true_eq_false,
+      not_false_eq_true, bne_self_eq_false, bne_iff_ne, decide_true, decide_false] <;>
+    refine ⟨_, _, rfl, ?_⟩ <;> simp
+
+
+/-- **C11 on the regenerated metadata assembly.**  `IdentityProvider.GetMetadata` as regenerated from identityprovider.go /
+    metadata.go on this run, for an identity provider with its metadata options: it fails exactly when the response
+    signing key cannot be obtained; otherwise the IDPSSODescriptor advertises - for both bindings - the SSO and SLO
+    endpoints' absolute URLs for the issuer in effect, the AttributeAuthorityDescriptor the attribute endpoint's, the
+    `WantAuthnRequestsSigned` flag is the configured string verbatim, and every key descriptor carries exactly the
+    response signing certificate the key getter returned (the one assertions are signed with). -/
+theorem C11_generated_metadata (o : Ora) (idpv : provider_IdentityProvider) (c : provider_IdentityProviderConfig)
+    (mc : provider_MetadataIDPConfig) (mep : provider_Endpoint) (hc : idpv.conf = some c) (hmc : c.MetadataIDPConfig = some mc)
+    (hme : idpv.metadataEndpoint = some mep) :
+    match getResponseCert o idpv.storage with
+    | .panic => IdentityProvider_GetMetadata o (some idpv) = .panic
+    | .ok (_, _, some e) => IdentityProvider_GetMetadata o (some idpv) = .ok (none, none, some e)
+    | .ok (cert, _, none) =>
+      ∃ md aa, IdentityProvider_GetMetadata o (some idpv) = .ok (some md, some aa, none) ∧
+        md.WantAuthnRequestsSigned = c.WantAuthRequestsSigned ∧
+        md.SingleSignOnService = [{ Binding := redirectBinding, Location := Metadata.abs o (epsOf o c).singleSignOnEndpoint (o.f_IssuerFromContext ()) },
+                                  { Binding := postBinding, Location := Metadata.abs o (epsOf o c).singleSignOnEndpoint (o.f_IssuerFromContext ()) }] ∧
+        md.SingleLogoutService = [{ Binding := redirectBinding, Location := Metadata.abs o (epsOf o c).singleLogoutEndpoint (o.f_IssuerFromContext ()) },
+                                  { Binding := postBinding, Location := Metadata.abs o (epsOf o c).singleLogoutEndpoint (o.f_IssuerFromContext ()) }] ∧
+        aa.AttributeService = [{ Binding := "urn:oasis:names:tc:SAML:2.0:bindings:SOAP", Location := Metadata.abs o (epsOf o c).attributeEndpoint (o.f_IssuerFromContext ()) }] ∧
+        (∀ kd ∈ md.KeyDescriptor, ∀ x ∈ kd.KeyInfo.X509Data, x.X509Certificate = Lib.b64encode cert) ∧
+        aa.KeyDescriptor = md.KeyDescriptor := by
+  unfold IdentityProvider_GetMetadata IdentityProvider_GetMetadata.body
+  cases hk : getResponseCert o idpv.storage with
+  | panic => simp [hk, deref, Res.isPanic, Ctl.toRes]
+  | ok t =>
+    obtain ⟨cert, key, kerr⟩ := t
+    cases kerr with
+    | some e => simp [hk, deref, Res.isPanic, Res.get, Ctl.toRes]
+    | none =>
+      have hent : IdentityProvider_GetEntityID o (some idpv) = .ok (Metadata.abs o mep (o.f_IssuerFromContext ())) := by
+        simp [IdentityProvider_GetEntityID, IdentityProvider_GetEntityID.body, deref, absolute_ok, Res.isPanic, Res.get, Ctl.toRes, hme]
+      obtain ⟨md, aa, hg, h1, h2, h3, h4, h5, h6⟩ := getMetadata_spec o c mc hmc (Metadata.abs o mep (o.f_IssuerFromContext ())) (o.f_IssuerFromContext ()) cert idpv.TimeFormat
+      refine ⟨md, aa, ?_, h1, h2, h3, h4, h5, h6⟩
+      simp [hk, deref, Res.isPanic, Res.get, Ctl.toRes, hent, hc, hg]
 
 end MetadataGen
